@@ -17,6 +17,14 @@ pub fn project(text: &str) -> Doc {
     norm_doc(&Doc { meta: p.meta.clone(), blocks })
 }
 
+/// the parsed structure as it is (items that start with a list are not merged)
+pub fn project_raw(text: &str) -> Doc {
+    let events: Vec<Event> = Parser::new_ext(text, options()).collect();
+    let mut p = P { ev: events, i: 0, meta: String::new() };
+    let blocks = p.blocks(None);
+    norm_doc_raw(&Doc { meta: p.meta.clone(), blocks })
+}
+
 struct P<'a> {
     ev: Vec<Event<'a>>,
     i: usize,
